@@ -18,6 +18,7 @@ type Layout interface {
 	TrailingComment() string        // "" or a comment appended to a statement's last line
 	IfOneLine() bool                // write an eligible if on one line
 	ArmBlockOnArrowLine() bool      // a multi-line arm body starts on the `->` line, aligned under its first token
+	ArmOffset(lo int) int           // column of the arms relative to `match` where they may go left of it (lo <= 0)
 	RhsNextLine() bool              // put a let's right-hand side on the next line
 	ArmNextLine() bool              // put a match arm's body on the next line
 	PipeBreak() bool                // break the line before this |>
@@ -37,6 +38,7 @@ func (Canonical) CommentIndent(cur int) int      { return cur }
 func (Canonical) TrailingComment() string        { return "" }
 func (Canonical) IfOneLine() bool                { return false }
 func (Canonical) ArmBlockOnArrowLine() bool      { return false }
+func (Canonical) ArmOffset(lo int) int           { return 0 }
 func (Canonical) RhsNextLine() bool              { return false }
 func (Canonical) ArmNextLine() bool              { return false }
 func (Canonical) PipeBreak() bool                { return false }
@@ -55,6 +57,8 @@ var opRank = map[string]int{
 type Printer struct {
 	L     Layout
 	lines []string
+	// armFloor (<= 0, consumed by the next match printed): how far left of the `match` keyword its arms may go
+	armFloor int
 }
 
 func (p *Printer) line(indent int, s string) {
@@ -356,7 +360,13 @@ func (p *Printer) letLike(head string, e *Expr, indent int) {
 	}
 	if multi || p.L.RhsNextLine() {
 		p.line(indent, head)
-		p.expr(e, indent+p.L.Indent(), "")
+		in := indent + p.L.Indent()
+		if (e.K == "matchu" || e.K == "matchs") && e.Extra == 0 {
+			// the arms of a match that is a let's right-hand side on the next line may sit left of the
+			// `match` keyword, down to the column of the let (the value is an expression, not a block)
+			p.armFloor = indent - in
+		}
+		p.expr(e, in, "")
 		return
 	}
 	if e.K == "pipe" && e.Extra == 0 {
@@ -462,6 +472,10 @@ func (p *Printer) expr(e *Expr, indent int, prefix string) {
 	case "matchu", "matchs":
 		p.line(indent, prefix+"match "+Inline(e.Args[0], 0)+" with")
 		ai := indent + p.L.CaseIndent()
+		if p.armFloor < 0 {
+			ai = indent + p.L.ArmOffset(p.armFloor)
+			p.armFloor = 0
+		}
 		for _, a := range e.Arms {
 			head := "| " + a.Case
 			if e.K == "matchs" {
